@@ -404,6 +404,49 @@ def run(run):
                         break
                 if errors:
                     break
+            # ... and a call pre-empted by a *reassignment* of its context's
+            # version (what connect() does to the connection's context while
+            # a user thread is building packets): afterwards the codec follows
+            # the current version
+            if not errors:
+                for pva, pvb in ((340, 757), (757, 340), (47, 578), (477, 404)):
+                    holder = {}
+
+                    def fresh(k, pva=pva):
+                        holder['ctx'] = ConnectionContext(protocol_version=pva)
+
+                    def call_a():
+                        sink = Sink()
+                        Position.send_with_context((5, 6, 7), sink,
+                                                   holder['ctx'])
+                        return sink.value()
+
+                    def call_b(pvb=pvb):
+                        holder['ctx'].protocol_version = pvb
+                        return True
+
+                    def judge(k, ra, rb, pva=pva, pvb=pvb):
+                        sink = Sink()
+                        try:
+                            Position.send_with_context((5, 6, 7), sink,
+                                                       holder['ctx'])
+                            after = sink.value()
+                        except Exception as e:
+                            after = repr(e)
+                        exp = rw.pack_position(5, 6, 7, trace_layout(pvb))
+                        if after != exp:
+                            return {'versions': (pva, pvb),
+                                    'stopped_after_statements': k,
+                                    'encoded_after_reassignment': after,
+                                    'expected': exp}
+                    wit = pe.run(call_a, call_b, judge, fresh=fresh)
+                    if wit:
+                        run.violation(
+                            'position/stale-after-concurrent-reassignment',
+                            'after another thread had reassigned the version '
+                            'of a context in the middle of an encoding, the '
+                            'codec does not follow the current version', wit)
+                        break
             run.count('codec_preemption_points', pe.points)
         if errors:
             run.violation('position/concurrent-versions' if 'triple' in
